@@ -3,7 +3,7 @@
 (* Scheme values as tagged records (so TLC never compares values of        *)
 (* different kinds directly).                                              *)
 (*   [t |-> "int", v]  [t |-> "rat", n, d]  [t |-> "real", s, e, m]        *)
-(*   [t |-> "bool", v] [t |-> "char", c] [t |-> "str", cs] [t |-> "sym", x]*)
+(*   [t |-> "bool", b] [t |-> "char", c] [t |-> "str", cs] [t |-> "sym", x]*)
 (*   [t |-> "nil"]     [t |-> "pair", a, d]                                *)
 (*   [t |-> "vec", id]           a vector object; contents live in vecs    *)
 (*   [t |-> "vlit", xs]          a vector literal inside quoted data       *)
@@ -16,7 +16,7 @@
 EXTENDS Naturals, Integers, Sequences, FiniteSets, TLC
 
 MkInt(n) == [t |-> "int", v |-> n]
-MkBool(b) == [t |-> "bool", v |-> b]
+MkBool(b) == [t |-> "bool", b |-> b]      \* not "v": TLC cannot compare an integer field with a boolean one
 MkSym(x) == [t |-> "sym", x |-> x]
 Nil == [t |-> "nil"]
 Cons(a, d) == [t |-> "pair", a |-> a, d |-> d]
@@ -24,7 +24,7 @@ Unspec == [t |-> "unspec"]
 True == MkBool(TRUE)
 False == MkBool(FALSE)
 
-Truthy(v) == ~(v.t = "bool" /\ v.v = FALSE)     \* only #f counts as false
+Truthy(v) == ~(v.t = "bool" /\ v.b = FALSE)     \* only #f counts as false
 IsPair(v) == v.t = "pair"
 IsNumber(v) == v.t \in {"int", "rat", "real"}
 IsExact(v) == v.t \in {"int", "rat"}
